@@ -569,6 +569,14 @@ def run_dither_case(ctx, case, lines, pending):
                           dict(changed=r1.tobytes() != keep, shares=[bool(np.shares_memory(r1, r2)), bool(np.shares_memory(r1, r3))]),
                           "repeated apply(in_place=False) on one Dither object leaves its inputs (incl. earlier results) untouched",
                           tags=dict(tags, clause="not_in_place_pure_reuse"))
+        # ... and re-seeding NumPy makes the SAME object repeat itself (reproducibility is a property of the
+        # numpy.random.seed state, not of a fresh object)
+        np.random.seed(seed)
+        r4 = call_apply(obj, x0.copy(), axis, False)
+        if r4.tobytes() != keep:
+            ctx.violation(case, r1.ravel().tolist()[:20], r4.ravel().tolist()[:20],
+                          "same numpy seed => identical output, also on a Dither object that has been used before",
+                          tags=dict(tags, clause="reproducible_reuse"))
     # reproducible + in_place gives the same values
     y2 = seeded_dither(P, coeff, x0.copy(), axis, ip, seed)
     if y2.tobytes() != y.tobytes():
@@ -697,6 +705,18 @@ def run_torch_dither_case(ctx, case, lines, pending):
         return
     if not torch.equal(go(coeff, t0.clone()), y):
         ctx.violation(case, y.tolist()[:20], "different", "same torch.manual_seed => identical output", tags=dict(tags, clause="reproducible"))
+    if not case["functional"]:
+        # one module object, used twice under the same seed
+        m = T.PyTorchDither.from_dither(P.Dither(coeff))
+        torch.manual_seed(seed)
+        a1 = m(t0.clone())
+        m(t0.clone())
+        torch.manual_seed(seed)
+        a2 = m(t0.clone())
+        if not torch.equal(a1, a2) or not torch.equal(a1, y):
+            ctx.violation(case, a1.tolist()[:20], a2.tolist()[:20],
+                          "same torch.manual_seed => identical output, also on a module that has been used before",
+                          tags=dict(tags, clause="reproducible_reuse"))
     if coeff == 0 and not torch.equal(y, t0):
         ctx.violation(case, t0.tolist()[:20], y.tolist()[:20], "coeff 0 is the identity", tags=dict(tags, clause="coeff_zero"))
     z = go(1.0, torch.zeros_like(t0))
